@@ -17,7 +17,7 @@ DESIGN_REF = "DESIGN.md §5 C34"
 def ob(name, entry, desc, nns=1, nreq=2, maxinf=2, attempts=1, tcp=False, extra=(), **kw):
     defs = ["C34_NNS=%d" % nns, "C34_NREQ=%d" % nreq, "C34_MAXINFLIGHT=%d" % maxinf, "C34_ATTEMPTS=%d" % attempts] + (["C34_TCP"] if tcp else []) + list(extra)
     d = dict(name=name, harness="C34_lifecycle.c", entry=entry, desc=desc, defines=defs, unwind=26,
-             cbmc=["--memory-leak-check", "--object-bits", "10"], timeout=900, mem_gb=4,
+             cbmc=["--memory-leak-check", "--object-bits", "10", "--max-field-sensitivity-array-size", "136"], timeout=900, mem_gb=4,
              unwindset=["transaction_id_pick.2:4", "nameserver_pick.3:4"])
     d.update(kw)
     return d
